@@ -504,10 +504,21 @@ def rule_R10(toks, fired):
                 else:
                     break
             star = prev_code(toks, rs - 1)
+            endc = pe
+            if toks[star].text == "(" and toks[next_code(toks, pe + 1)].text == ")" and toks[prev_code(toks, star - 1)].text == "*":
+                # *(X.get_unchecked_mut(i))  : drop the parentheses as well
+                endc = next_code(toks, pe + 1)
+                star = prev_code(toks, star - 1)
             if toks[star].text != "*":
-                raise ExtractError("R10: get_unchecked result is not dereferenced")
+                # the reference itself is bound:  X.get_unchecked_mut(i)  ->  &mut X[i]
+                pre = synth("&mut ") if t.text == "get_unchecked_mut" else synth("&")
+                new = pre + toks[rs:dot] + [S("[")] + toks[p + 1:pe] + [S("]")]
+                toks = toks[:rs] + new + toks[pe + 1:]
+                fired["R10"] = fired.get("R10", 0) + 1
+                i = rs + len(new)
+                continue
             new = toks[rs:dot] + [S("[")] + toks[p + 1:pe] + [S("]")]
-            toks = toks[:star] + new + toks[pe + 1:]
+            toks = toks[:star] + new + toks[endc + 1:]
             fired["R10"] = fired.get("R10", 0) + 1
             i = star
         i += 1
